@@ -348,7 +348,7 @@ class C16:
                 seq = log.emit('client', 'set', [touched, op['what'], op['name'], op['oct']], got)
                 bump(probes, 'edited_through_setters')
                 if got != want:
-                    add_v('setter-wrong', 'setter-wrong', want, got, pool_index=touched)
+                    add_v('setter-wrong', 'setter-wrong', seq, want, got, pool_index=touched)
                 if isinstance(got, list):
                     model[touched] = (got[0], got[1])
                 # every alias of this object in the pool is the same object: keep their models in step
